@@ -170,7 +170,9 @@ int main (int argc, char **argv) {
 			long n0 = *rc::gen::inRange<long> (0, 1000000000), n1 = *rc::gen::inRange<long> (0, 1000000000);
 			unsigned u = *rc::gen::arbitrary<unsigned> ();
 			rc_cases++;
-			if (n0 + n1 >= 1000000000 || n0 < n1) distinct.insert ({ s0 ^ n0, s1 ^ n1 });
+			// (the set only feeds the 'distinct non-trivial cases' figure of the evidence; capped, because under ASan 3 M
+			// nodes cost 5 GB per shard and sixteen shards exhausted the machine's memory in the thorough tier)
+			if ((n0 + n1 >= 1000000000 || n0 < n1) && distinct.size () < 1500000) distinct.insert ({ s0 ^ n0, s1 ^ n1 });
 			bool pass = true;
 			for (auto &A : apis) pass = pass && check_pair (A, mk (s0, n0), mk (s1, n1)) && check_unsigned (A, u) && check_s_ns (A, (time_t) s0, (unsigned) n0);
 			if (!pass) { fail = g_why; fs0 = s0; fn0 = n0; fs1 = s1; fn1 = n1; fu = u; }
